@@ -323,6 +323,9 @@ func c17Gen(t *rapid.T) c17Case {
 		if c.GLen > 0 && rapid.Bool().Draw(t, "slice") {
 			s := rapid.IntRange(0, c.GLen-1).Draw(t, "s")
 			e := rapid.IntRange(s+1, c.GLen).Draw(t, "e")
+			if rapid.IntRange(0, 5).Draw(t, "emptywindow") == 0 {
+				e = s // a slice that holds no residue is still a slice: its description names the (empty) region
+			}
 			c.Slice = []int{s, e}
 		}
 		return c
@@ -403,6 +406,24 @@ func TestC17(t *testing.T) {
 		}
 	}
 	eg.done(true)
+	// GenBank records written as FASTA: whole and sliced, every window kind including the empty one at every position
+	egb := enumPart(t, c17Prop, st, "genbank-windows")
+	for _, n := range []int{1, 5, 70, 71, 140} {
+		for s0 := 0; s0 <= n; s0++ {
+			for _, e0 := range []int{s0, s0 + 1, n} {
+				if e0 < s0 || e0 > n {
+					continue
+				}
+				if !egb.try(c17Case{Mode: "genbank", Version: "AB12.3", Def: "a definition", GLen: n, Slice: []int{s0, e0}}) {
+					return
+				}
+			}
+		}
+		if !egb.try(c17Case{Mode: "genbank", Version: "AB12.3", Def: "two\nlines", GLen: n}) {
+			return
+		}
+	}
+	egb.done(true)
 	// deliveries: the same streams through readers that hand the bytes over in other portions
 	ed := enumPart(t, c17Prop, st, "deliveries")
 	dl := []int{0, 1, 69, 70, 71, 140, 700, 3900, 4100}
